@@ -827,10 +827,6 @@ func (cpu *CPU) Step() (int, bool) {
 
 	//cycles := cpu.Cycles
 
-	if cb, ok := cpu.OnPC[uint32(cpu.RK)<<16|uint32(cpu.PC)]; ok {
-		cb()
-	}
-
 	switch cpu.Interrupt {
 	case interruptNMI:
 		cpu.nmi()
@@ -838,6 +834,12 @@ func (cpu *CPU) Step() (int, bool) {
 		cpu.irq()
 	}
 	cpu.Interrupt = interruptNone
+
+	// invoke the callback registered for the instruction that is about to be fetched
+	// (after interrupt dispatch, which may have moved PC):
+	if cb, ok := cpu.OnPC[uint32(cpu.RK)<<16|uint32(cpu.PC)]; ok {
+		cb()
+	}
 
 	cpu.PPC = cpu.PC
 	cpu.PRK = cpu.RK
